@@ -35,6 +35,14 @@ CHECKS = {
          "seeded search over transformation sequences (all 120 column orders within a thorough run); no schedule dimension of its own", "DESIGN.md section 6 C15", "the canonical frame run is the oracle"),
  "C20": ("exploration", "deterministic simulation: twin nodes, seeded sets of neutral configuration toggles, bitwise comparison, per-toggle bisection on failure",
          "seeded search over base configurations and toggle sets (alone and in combination); no schedule dimension of its own", "DESIGN.md section 6 C20", "the base configuration run is the oracle"),
+ "C10": ("exploration", "deterministic simulation: seeded interleaving of colliding model instances with neighbour noise, PRNG-dealt worker assignment and hash-seeded interpreter restarts; fresh-interpreter digest as oracle",
+         "seeded search over instance interleavings, worker assignments and hash seeds; each result compared with the digest its spec gives alone in a fresh interpreter", "DESIGN.md section 6 C10", "fresh interpreters are real subprocesses; the choice of who runs where and when is the PRNG's"),
+ "C13": ("exploration", "deterministic simulation: irrigation decision captured at the rebinding seam, per-strategy executable reference models, controller writes between steps",
+         "seeded search; every in-season decision compared with a reference model written from the property text; threshold days inside the rounding band are counted undecidable, not passed", "DESIGN.md section 6 C13", "the threshold reference integrates the root zone from the state the decision saw; tolerance 0.02 mm x compartments"),
+ "C14": ("exploration", "deterministic simulation with fault injection: undelivered future weather (garbage / NaN poison) with just-in-time delivery, garbage outside the window, end-date extension; bitwise comparison with the up-front reference",
+         "seeded search; one just-in-time run covers every cut day for its perturbation; thermal-time crops only in the outside/extension modes", "DESIGN.md section 6 C14", "writes rows of the documented model._weather matrix before each step"),
+ "C19": ("exploration", "deterministic simulation: water-table bundles, groundwater-check and capillary-rise seams, independent table-depth series model, no-table and far-table twins",
+         "seeded search; relations checked on every simulated day, twin runs compared bitwise (z_gw exempt)", "DESIGN.md section 6 C19", "far-table twin avoids the documented 'FC follows the table' initialisation path"),
 }
 
 NOT_APPLICABLE = {
